@@ -238,7 +238,7 @@ func runCheck(repo, root, id, tier string, seed int, mutant string, writeEvidenc
 		vc.obls = keep
 		vcs = append(vcs, vc)
 	}
-	timeout := 10
+	timeout := 15
 	all := false
 	if tier == "thorough" {
 		timeout = 60
